@@ -373,6 +373,18 @@ PROPS.update({
 })
 
 
+_CONN_SK = ["passage-protocol/src/connection.rs", "passage-protocol/src/crypto/mod.rs"]
+for _p in ("C01", "C02", "C03", "C04", "C06", "C07", "C08", "C10"):
+    PROPS[_p]["skeleton"] = list(_CONN_SK)
+    PROPS[_p]["ties"] = PROPS[_p].get("ties", []) + ["tools/skeleton.py: primitive sequence of Connection::listen / receive_packet / keep_alive / send_packet against the stored skeleton the model was transcribed from"]
+for _p in ("C02", "C10"):
+    PROPS[_p]["skeleton"].append("passage-protocol/src/cookie.rs")
+PROPS["C05"]["skeleton"] = ["passage-protocol/src/crypto/stream.rs"]
+PROPS["C13"]["skeleton"] = ["passage-protocol/src/rate_limiter.rs"]
+for _p in ("C14", "C15", "C16", "C17"):
+    PROPS[_p]["skeleton"] = ["passage-protocol/src/listener.rs"]
+
+
 def nontrivial(pid, fam, term):
     if pid == "C09":
         if fam in ("VI", "VL", "VR"): return True
